@@ -324,7 +324,7 @@ def shrink(mod, ctx, world, cls, budget=400):
                 size //= 2
         # simplify the fault configuration
         cfg = cur.get("cfg", {})
-        for k, off in (("shuffle", False), ("dtype_unknown", False), ("short_reads", 0), ("fill", -1), ("locale", "C"), ("errno_noise", False)):
+        for k, off in (("shuffle", False), ("dtype_unknown", False), ("short_reads", 0), ("fill", -1), ("locale", "C"), ("errno_noise", False), ("fd0_free", False)):
             if cfg.get(k, off) != off and attempts < budget:
                 cand = copy.deepcopy(cur)
                 cand["cfg"][k] = off
